@@ -18,13 +18,19 @@ const ENTRIES = [
   { src: 'plusOperator', operator: false, dst: 'plusAsMethod' },
   { src: 'trim', operator: true, dst: 'trimAsOperator' }
 ]
-const STMTS = 'let x = a + b; x += a; let t = `${a}${b}`; let m1 = a.trim(); let m2 = a.concat(b); let m3 = a.substring(1); let m4 = aloneMethod(a); let m5 = cantAloneMethod(a); let m6 = a.plusOperator(b); let m7 = s?.trim(); let m8 = String.prototype.concat.call(a, b); let m9 = a.slice(1); let m10 = o.aloneMethod(a); let m11 = String.prototype.substring.apply(a, [1, 2]);'
+const STMTS = 'let x = a + b; x += a; let t = `${a}${b}`; let m1 = a.trim(); let m2 = a.concat(b); let m3 = a.substring(1); let m4 = aloneMethod(a); let m5 = cantAloneMethod(a); let m6 = a.plusOperator(b); let m7 = s?.trim(); let m8 = String.prototype.concat.call(a, b); let m9 = a.slice(1); let m10 = o.aloneMethod(a); let m11 = String.prototype.substring.apply(a, [1, 2]); let m12 = a.at(1); let m13 = a.con(b); let m14 = a.trimEnd(); let m15 = a.Trim();'
 const SIDE_BY_SIDE = `function main(a, b, s, o) {\n  ${STMTS}\n  {\n    ${STMTS}\n  }\n  const k = () => { ${STMTS} };\n}\nvar top = g1 + g2 + \`\${g1}\` + g1.trim();\n`
 const VARIANTS = [
   { name: 'dup-src', add: [{ src: 'trim', dst: 'trimSecond' }] },
   { name: 'dst-collision', add: [{ src: 'slice', dst: 'concat' }] },
   { name: 'dup-operator', add: [{ src: 'plusOperator', operator: true, dst: 'plusSecond' }] },
-  { name: 'awc-renamed', add: [{ src: 'aloneMethod2', dst: 'aloneRenamed', allowedWithoutCallee: true }] }
+  { name: 'awc-renamed', add: [{ src: 'aloneMethod2', dst: 'aloneRenamed', allowedWithoutCallee: true }] },
+  // replacement names that are textual suffixes / prefixes / case variants of other configured names
+  { name: 'suffix-name', add: [{ src: 'at' }] },
+  { name: 'prefix-name', add: [{ src: 'con' }] },
+  { name: 'case-variant', add: [{ src: 'Trim' }] },
+  { name: 'shared-dst', add: [{ src: 'trimEnd', dst: 'trim' }] },
+  { name: 'suffix-first', add: [{ src: 'at' }], prepend: true }
 ]
 
 // ---- (ii) options --------------------------------------------------------------------------------------
@@ -52,7 +58,7 @@ async function build (tier) {
     for (const l of r.leaves) {
       let methods = ENTRIES.map((e, i) => l.pick['r' + i] ? Object.assign({}, e, { dst: 'r' + i + '_' + e.src }) : e).filter((e, i) => l.pick['e' + i])
       const variant = VARIANTS.find((v) => v.name === l.pick.variant)
-      if (variant) methods = methods.concat(variant.add)
+      if (variant) methods = variant.prepend ? variant.add.concat(methods) : methods.concat(variant.add)
       leaves.push({ fam: 'lattice', key: 'lat¦' + ENTRIES.map((e, i) => l.pick['r' + i] ? 2 : l.pick['e' + i] ? 1 : 0).join('') + '¦' + l.pick.variant, config: { localVarPrefix: 'p', csiMethods: methods }, variant: l.pick.variant })
     }
     for (const c of [{ localVarPrefix: 'p' }, { localVarPrefix: 'p', csiMethods: [] }, {}]) { stats.states++; stats.transitions++; leaves.push({ fam: 'lattice', key: 'lat¦empty¦' + JSON.stringify(c), config: c, variant: null }) }
